@@ -147,6 +147,19 @@ func retryStageRule(o *Ob) {
 					n++
 					r := (&Walk{Fn: fn}).FromEdge(b, si)
 					o.Check(!r.Has(nt), "done-notifies", "after the flush context ended the stage still notifies", nt)
+					// a flush that ended without a delivery must not be reported as delivered: the dispatcher drops the
+					// resolved alerts of a flush that returns no error.  (The context's error is non-nil once Done is closed.)
+					assumedNonNil = func(v ssa.Value) bool {
+						c, isC := v.(*ssa.Call)
+						return isC && calleeName(&c.Call) == "invoke:context.Context.Err"
+					}
+					rs0 := (&Walk{Fn: fn}).FromEdge(b, si)
+					assumedNonNil = nil
+					for _, rs := range e.ResultStores(fn, 2) {
+						if rs0.Has(rs.Instr) && isNilConst(rs.Val) {
+							o.Fail("done-silent", "the retries can end with the flush context and report success although nothing was delivered: the flush counts as delivered and its resolved alerts are dropped unreported", rs.Instr)
+						}
+					}
 					for _, rs := range e.ResultStores(fn, 2) {
 						if !r.Has(rs.Instr) || isNilConst(rs.Val) {
 							continue
@@ -172,7 +185,7 @@ func init() {
 		NotDecided:  "back-off values, truncation arithmetic on runes/bytes (numeric), the integrations' HTTP payload formats.",
 	}
 
-	reg("C20", "C20.1", "T6", "RetryStage.exec: prologue, what is sent, outcome table (success / unrecoverable / recoverable), context end", func(o *Ob) {
+	reg("C20", "C20.1", "T6", "RetryStage.exec: prologue, what is sent, outcome table (success / unrecoverable / recoverable), context end (an error, never success without a delivery)", func(o *Ob) {
 		retryStageRule(o)
 		o.MinSites(6)
 	})
